@@ -59,7 +59,8 @@ WellFormed(tok) ==   \* the JSON scalar tokens the property quantifies over
   \/ tok # <<>> /\ JsonNum(tok)
 
 \* ------------------------------------------------------------- contract
-Same == [k |-> "same"]      \* JSON null: the only acceptable success leaves the value alone
+Same == [k |-> "same"]      \* JSON null: an acceptable success leaves the value alone or zeroes it
+Zero(t) == IF t = "bytes" THEN <<>> ELSE Int0
 
 Kind(t) ==
   CASE t \in {"i64", "u64", "stamp", "unix", "nano"} -> "dec"
@@ -95,10 +96,10 @@ Denote(t, tok) ==
   ELSE IF Quoted(tok) THEN (IF PlainStr(Inner(tok)) THEN TextDenote(kind, Inner(tok)) ELSE None)
   ELSE BareDenote(kind, tok)
 
-Explains(d, prev, v) ==     \* is v the value that denotation d stands for?
+Explains(d, t, prev, v) ==  \* is v the value that denotation d stands for?
   CASE d.k = "none"  -> FALSE
     [] d.k = "free"  -> TRUE
-    [] d.k = "same"  -> v = prev
+    [] d.k = "same"  -> v = prev \/ v = Zero(t)
     [] d.k = "int"   -> v = d.v
     [] d.k = "bytes" -> v = d.v
     [] d.k = "list"  -> /\ Len(v) = Len(d.v)
@@ -108,7 +109,7 @@ Explains(d, prev, v) ==     \* is v the value that denotation d stands for?
 (* out: "ok" | "err" | anything else (panic) *)
 DecOK(t, tok, prev, out, v) ==
   \/ out = "err"
-  \/ out = "ok" /\ Explains(Denote(t, tok), prev, v)
+  \/ out = "ok" /\ Explains(Denote(t, tok), t, prev, v)
 RtOK(out, v, back) == out = "ok" /\ back = v
 
 \* --------------------------------------------------------------- design
@@ -164,8 +165,6 @@ Enc(t, v) ==
   IF t = "bytes" THEN <<34>> \o Join(v) \o <<34>>
   ELSE <<34>> \o (IF v.neg THEN <<45>> ELSE <<>>) \o DigChars(v.d) \o <<34>>
 
-Zero(t) == IF t = "bytes" THEN <<>> ELSE Int0
-
 \* ----------------------------------------------------- the state machine
 (* a = [op |-> "set", v] | [op |-> "dec", tok] | [op |-> "rt", v]           *)
 Do(a) ==
@@ -218,7 +217,7 @@ RoundTrip ==
   [][last'.op = "rt" =>
         /\ WellFormed(last'.tok)
         /\ RtOK(IF last'.ok THEN "ok" ELSE "err", last'.prev, last'.v)
-        /\ Explains(Denote(ty, last'.tok), last'.prev, last'.prev)]_allvars
+        /\ Explains(Denote(ty, last'.tok), ty, last'.prev, last'.prev)]_allvars
 
 (* a failed decode leaves the variable alone (design choice, not demanded from the code) *)
 FailKeeps == [][(last'.op = "dec" /\ ~last'.ok) => cur' = cur]_allvars
